@@ -5,6 +5,7 @@ import (
 	"errors"
 	"io"
 	"sync"
+	"time"
 
 	"github.com/thanos-io/objstore"
 )
@@ -17,6 +18,8 @@ type Op struct {
 	Seq int
 	// Failed is true when the wrapper injected a failure into this operation.
 	Failed bool
+	// NotFound is true when the underlying bucket reported the object missing.
+	NotFound bool
 }
 
 func (o Op) Mutating() bool { return o.Kind == "upload" || o.Kind == "delete" }
@@ -36,6 +39,10 @@ type RecBucket struct {
 	FailName func(kind, name string) bool
 	// Sticky: once a failure was injected keep failing the same (kind,name).
 	Sticky bool
+	// ModTime, when set, overrides the last-modified time reported by
+	// IterWithAttributes (ok=false keeps the underlying value; a zero time
+	// means "not available").
+	ModTime func(name string) (time.Time, bool)
 	failed map[string]bool
 }
 
@@ -63,6 +70,17 @@ func (b *RecBucket) rec(kind, name string, read bool) (fail bool) {
 	}
 	b.ops = append(b.ops, Op{Kind: kind, Name: name, Seq: len(b.ops), Failed: fail})
 	return fail
+}
+
+func (b *RecBucket) markNotFound(kind, name string) {
+	b.mu.Lock()
+	defer b.mu.Unlock()
+	for i := len(b.ops) - 1; i >= 0; i-- {
+		if b.ops[i].Kind == kind && b.ops[i].Name == name {
+			b.ops[i].NotFound = true
+			return
+		}
+	}
 }
 
 // Ops returns a copy of the operation log.
@@ -97,14 +115,26 @@ func (b *RecBucket) IterWithAttributes(ctx context.Context, dir string, f func(o
 	if b.rec("iter", dir, true) {
 		return ErrInjected
 	}
-	return b.Bucket.IterWithAttributes(ctx, dir, f, o...)
+	if b.ModTime == nil {
+		return b.Bucket.IterWithAttributes(ctx, dir, f, o...)
+	}
+	return b.Bucket.IterWithAttributes(ctx, dir, func(a objstore.IterObjectAttributes) error {
+		if t, ok := b.ModTime(a.Name); ok {
+			a.SetLastModified(t)
+		}
+		return f(a)
+	}, o...)
 }
 
 func (b *RecBucket) Get(ctx context.Context, name string) (io.ReadCloser, error) {
 	if b.rec("get", name, true) {
 		return nil, ErrInjected
 	}
-	return b.Bucket.Get(ctx, name)
+	r, err := b.Bucket.Get(ctx, name)
+	if err != nil && b.Bucket.IsObjNotFoundErr(err) {
+		b.markNotFound("get", name)
+	}
+	return r, err
 }
 
 func (b *RecBucket) GetRange(ctx context.Context, name string, off, length int64) (io.ReadCloser, error) {
@@ -118,7 +148,11 @@ func (b *RecBucket) Exists(ctx context.Context, name string) (bool, error) {
 	if b.rec("exists", name, true) {
 		return false, ErrInjected
 	}
-	return b.Bucket.Exists(ctx, name)
+	ok, err := b.Bucket.Exists(ctx, name)
+	if err == nil && !ok {
+		b.markNotFound("exists", name)
+	}
+	return ok, err
 }
 
 func (b *RecBucket) Attributes(ctx context.Context, name string) (objstore.ObjectAttributes, error) {
